@@ -105,7 +105,8 @@ def r61(ctx, fx, T, scope):
             ctx.finding(rid, key, "a value the program text controls reaches `%s` in %s: the assembler panics instead of reporting a diagnostic" % (
                 kind, f.path.rsplit("::", 1)[-1] if not f.path.startswith("<") else f.path), "%s:%s" % (f.file, t.get("line")), flow=why[:3])
     ctx.extra["asserts_scanned"] = n_all
-    ctx.floor(rid, 15, "labelled Assert sinks")
+    # with overflow checks compiled out (the release-like profile of the thorough tier) only division / remainder / bounds asserts remain
+    ctx.floor(rid, 15 if fx.profile != "rel" else 2, "labelled Assert sinks")
 
 
 ALLOC_SINKS = {  # callee suffix -> index of the size argument
